@@ -1387,6 +1387,46 @@ func (e *Env) matchEvent(p ast.Expr, ev Event) (string, error) {
 	if len(call.Args) > len(ev.Args) {
 		return "false", nil
 	}
+	if (ev.Name == "chselect" || ev.Name == "chpoll") && len(call.Args) == len(ev.Args) && len(ev.Args) >= 2 && len(ev.Args) <= 4 {
+		// the cases of a select are a set: their order in the source is not observable (Go chooses among the ready
+		// cases at random), so chselect(in, done) also names a select written `case <-done: ... case v := <-in:`
+		var vals []SVal
+		for _, a := range call.Args {
+			if id, ok := a.(*ast.Ident); ok && id.Name == "_" {
+				vals = append(vals, SVal{})
+				continue
+			}
+			v, err := e.eval(a)
+			if err != nil {
+				return "", err
+			}
+			vals = append(vals, v)
+		}
+		var alts []string
+		var perm func(k int, used []bool, cur []int)
+		perm = func(k int, used []bool, cur []int) {
+			if k == len(vals) {
+				var cs []string
+				for i, j := range cur {
+					if id, ok := call.Args[i].(*ast.Ident); ok && id.Name == "_" {
+						continue
+					}
+					cs = append(cs, e.X.valEq(e.St, ev.Args[j], vals[i]))
+				}
+				alts = append(alts, and(cs...))
+				return
+			}
+			for j := range ev.Args {
+				if !used[j] {
+					used[j] = true
+					perm(k+1, used, append(cur, j))
+					used[j] = false
+				}
+			}
+		}
+		perm(0, make([]bool, len(ev.Args)), nil)
+		return or(alts...), nil
+	}
 	var cs []string
 	for i, a := range call.Args {
 		if id, ok := a.(*ast.Ident); ok && id.Name == "_" {
